@@ -280,6 +280,12 @@ def make_items(tier, seed):
             items.append({"fw": fw, "mode": "circuit", "progs": progs[i : i + 4]})
             if fw.startswith("qasm"):
                 items.append({"fw": fw, "mode": "gate", "progs": progs[i : i + 4]})
+    # the textual exporters are cheap to read back: the whole control-flow corpus and a slice of the
+    # re-assignment families (scratch qubit naming, recycled ancillas) go through QASM 3
+    wide = [p[1] for p in corpus.u_ctl() if corpus.size_ok(p[1], 8, 60)] + [p[1] for p in corpus.u_selfif()[:: (1 if tier == "thorough" else 3)]] + [p[1] for p in corpus.u_stale()[:: (2 if tier == "thorough" else 6)]]
+    wide = [p for p in wide if p not in progs]
+    for i in range(0, len(wide), 6):
+        items.append({"fw": "qasm3", "mode": "circuit", "progs": wide[i : i + 6], "opt": "fast" if (i // 6) % 2 else "default"})
     return items
 
 
@@ -395,7 +401,12 @@ def check_item(spec):
         circs = []
         for src in spec["progs"]:
             try:
-                qf = qlassf(src, to_compile=True)
+                if spec.get("opt") == "fast":
+                    from qlasskit.boolopt import fastOptimizer
+
+                    qf = qlassf(src, to_compile=True, bool_optimizer=fastOptimizer)
+                else:
+                    qf = qlassf(src, to_compile=True)
                 if qf.circuit().num_qubits <= 40:
                     circs.append((src.split("\n")[1].strip(), qf.circuit()))
             except Exception:
